@@ -55,8 +55,7 @@ def _cases(tier, seed):
     rnd = random.Random(seed)
     opts = _options()
     for (dest, flag, kind, typ, choices) in opts:
-        if dest in ('enable_intersphinx_cache_deprecated', 'packages'):
-            continue
+        # (options whose help is suppressed - --add-package, --add-module, the deprecated cache switch - are options like any other)
         for adversarial in ((False, True) if kind == '_StoreAction' and typ is None and not choices else (False,)):
             reps = 1 if not adversarial else (3 if tier == 'quick' else 12)
             for _ in range(reps):
